@@ -137,7 +137,20 @@ def sensitivity(scale, seed, only=None):
             out[sid] = {"exit": r.returncode, "detected": r.returncode == 1,
                         "violation_classes": sorted({f"{inv}:{op}@{b}" for b, inv, op in viol}),
                         "harness_errors": len(herr), "wall_s": round(time.time() - t0), "scale": scale, "seed": seed}
+            # every replay file must reproduce on the changed tree and must NOT reproduce on the unchanged tree
+            files = sorted(glob.glob(os.path.join(d, "replays", "*.json")))
+            rep_ok = rep_clean = 0
+            pick = files[:2] + [f for f in files[2:] if "-I2-" in f or "-I3-" in f or "-I4-" in f][:2]
+            for f in pick:
+                r1 = subprocess.run([os.path.join(VERIF, "check"), "C13", "--replay", f], capture_output=True, text=True, env=env)
+                env2 = {k: v for k, v in env.items() if k != "HTSIM_SRC"}
+                r2 = subprocess.run([os.path.join(VERIF, "check"), "C13", "--replay", f], capture_output=True, text=True, env=env2)
+                rep_ok += int(r1.returncode == 1 and "VIOLATION property=C13" in r1.stdout)
+                rep_clean += int(r2.returncode == 0)
+            out[sid].update({"replays_tried": len(pick), "replays_reproduce_on_changed_tree": rep_ok,
+                             "replays_clean_on_unchanged_tree": rep_clean})
             print(sid, "exit", r.returncode, out[sid]["violation_classes"], f"{out[sid]['wall_s']}s",
+                  f"replays {rep_ok}/{len(pick)} reproduce, {rep_clean}/{len(pick)} clean on /repo",
                   ("HARNESS " + herr[0][:200]) if herr else "", flush=True)
         finally:
             shutil.rmtree(d, ignore_errors=True)
